@@ -25,7 +25,7 @@ def showCoins (cs : List (Nat × Nat)) : String :=
 def showState (st : St) (r : Res) : String :=
   let s := st.s
   let res := match r with | .ok n => s!"ok:{n}" | .err => "err" | .panic => "panic"
-  let pool := ";".intercalate ((sortBy (·.id) s.pool).map showTx)
+  let pool := ";".intercalate (s.pool.map showTx)
   let batches := ";".intercalate ((sortBy (·.nonce) s.batches).map fun b =>
     s!"{b.nonce}:{b.token}:{b.timeout}:{b.block}:{b.feeReceive}:" ++ ",".intercalate (b.txs.map showTx))
   let calls := ";".intercalate ((sortBy (·.nonce) s.calls).map fun c =>
